@@ -264,6 +264,14 @@ func runC04(c *Ctx) {
 	// mutator applied to a private copy must not write through to the object another caller holds
 	c.Import(runC19, "R19.3", "pkg/resource.Finalizers)", "R04.10", "E3", "Finalizers.Add/Remove write only to storage created in the same call: an attempt that is later rejected leaves no trace in shared metadata", 2)
 
+
+	// ---------- error discipline (E8)
+	errDisciplineFor(c, "C04")
+
+	// ---------- R04.12 (shared with C15 R15.10)
+	c.Rule("R04.12", "E5", "the controller-facing read-modify-write operations (Modify, Teardown, AddFinalizer, RemoveFinalizer …) read what they decide on from the live state, never from the lagging read cache: success means the mutation was applied to the then-current value", 10)
+	liveStateRules(c, "R04.12")
+
 }
 
 // typedWrappers (R04.8): the generic helpers in pkg/safe make exactly one call to the untyped
